@@ -88,7 +88,14 @@ where
             let body = test::read_body(resp).await.to_vec();
             Ok(Decoded { status, headers, body })
         }
-        Err(e) => Err(format!("service returned Err: {e}")),
+        Err(e) => {
+            // an Err that escapes the service (e.g. from a middleware) is rendered by the HTTP dispatcher from the
+            // error itself, outside every middleware of the app: that rendering is the response the client sees
+            let resp = e.error_response();
+            let status = resp.status().as_u16();
+            let headers = resp.headers().iter().map(|(n, v)| (n.as_str().to_string(), v.as_bytes().to_vec())).collect();
+            Ok(Decoded { status, headers, body: vec![] })
+        }
     }
 }
 
@@ -702,6 +709,62 @@ pub fn leg_http(thorough: bool, seed: u64) -> Value {
                 }
             }
         });
+    }
+    // the first AddVersion ever of a never-seen client with a NON-NIL parent, with each storage call of the request
+    // failing in turn: 500, and the client is left either absent, empty, or with exactly that version (C05, C02, C01)
+    {
+        let dir = scratch("tcss-http4-");
+        for fail_at in 0..11usize {
+            for after in [false, true] {
+                let st = SqliteStorage::new(dir.path()).unwrap();
+                let plan = Arc::new(Mutex::new(FaultPlan::default()));
+                let cl = Uuid::new_v4();
+                let parent = Uuid::new_v4();
+                let web = WebServer::new(ServerConfig::default(), None, FaultStorage { inner: st, plan: plan.clone() });
+                sys.block_on(async {
+                    let app = test::init_service(App::new().configure(|sc| web.config(sc))).await;
+                    {
+                        let mut p = plan.lock().unwrap();
+                        let b = p.calls;
+                        p.fail_at = vec![b + fail_at];
+                        p.after_effect = after;
+                        p.injected = 0;
+                        p.trace.clear();
+                    }
+                    let r = ReqSpec { method: "POST", uri: uri_av(parent), client_id: Some(cl.to_string().into_bytes()), content_type: Some(HS_CT.into()), chunks: vec![b"first".to_vec()] };
+                    let (inj, calls) = {
+                        let d = call(&app, &r).await;
+                        let p = plan.lock().unwrap();
+                        let tr = vec![format!("first add-version of a never-seen client (parent {parent}); storage call #{fail_at} of the request fails {} taking effect; calls made: {:?}", if after { "after" } else { "before" }, p.trace)];
+                        if let Ok(d) = &d {
+                            ctx.common(d, &r, &tr, "fault");
+                            if p.injected > 0 && d.status != 500 {
+                                ctx.v(&["C05", "C14"], format!("a storage call failed but the response is {} (expected 500)", d.status), &r, &tr);
+                            }
+                        }
+                        (p.injected, tr)
+                    };
+                    plan.lock().unwrap().fail_at.clear();
+                    if inj > 0 {
+                        let raw = absfn::via_raw_sql(dir.path()).unwrap();
+                        let c = cs(&raw.db, cl);
+                        let ok = !c.exists || (c.latest == NIL && c.versions.is_empty()) || (c.versions.len() == 1 && chain_wf(&c).is_ok() && c.versions.values().next().map(|v| v.parent_version_id == parent && v.history_segment == b"first".to_vec()).unwrap_or(false));
+                        if !ok || !raw.anomalies.is_empty() {
+                            ctx.v(&["C05", "C02", "C01", "C03"], format!("after the failed request the new client is left in a state that is neither 'before' nor 'after': {:?} {:?}", c, raw.anomalies), &r, &calls);
+                        }
+                        // later requests are served normally: the same request again must now succeed and be readable
+                        if let Ok(d2) = call(&app, &r).await {
+                            ctx.common(&d2, &r, &calls, "after-fault");
+                            let c2 = cs(&absfn::via_raw_sql(dir.path()).unwrap().db, cl);
+                            let fine = (d2.status == 200 || d2.status == 409) && chain_wf(&c2).is_ok();
+                            if !fine {
+                                ctx.v(&["C05", "C02"], format!("the request repeated after the failure is answered {} and leaves {:?}", d2.status, chain_wf(&c2)), &r, &calls);
+                            }
+                        }
+                    }
+                });
+            }
+        }
     }
     // storage failure on each endpoint => 500, still with Cache-Control
     {
